@@ -255,8 +255,11 @@ func runC09(c *Ctx) {
 			c.Unk("C09.A3-deliver-checked", "announce › hand-over under the caller's context", token.NoPos, "no context alternative found in the hand-over select")
 		}
 	}
+	acceptedAnnouncementHandedOn(c, "C09.A3-accepted-is-delivered")
+	c.Floor("C09.A3-accepted-is-delivered", 1)
 	c.Floor("C09.A3-deliver-checked", 5)
-	c.Floor("C09.A4-addresses-filtered", 1)
+	filterPublicFamilies(c, "C09.A4-addresses-filtered")
+	c.Floor("C09.A4-addresses-filtered", 2)
 	// the filters in force are the configured ones: every receiver the constructor hands out carries the configured
 	// allow filter and address-filter flag (a second construction path that forgets one silently disables it)
 	if nr := c.Func(pkg, "NewReceiver"); nr != nil {
